@@ -95,6 +95,8 @@ func sat(a, b int64) int64 {
 type atom struct {
 	name   string
 	lo, hi int64
+	def    ssa.Value // a value whose linear form is exactly this atom (first seen)
+	lenOf  ssa.Value // a slice/string value whose length is exactly this atom (first seen)
 }
 
 // Fact is L >= 0, or L != 0 when NE.
@@ -121,11 +123,11 @@ type FA struct {
 	// CallRange, if set, gives an interval for the integer result of a call.
 	CallRange func(call *ssa.Call) (lo, hi int64, ok bool)
 	// CallLen, if set, gives the length (as LF) of the slice result of a call.
-	CallLen func(f *FA, call *ssa.Call) (LF, bool)
-	intBits int
-	maxLen  int64
-	Dead    map[*ssa.BasicBlock]bool // blocks unreachable under closed-world assumptions
-	DeadWhy []string
+	CallLen  func(f *FA, call *ssa.Call) (LF, bool)
+	intBits  int
+	maxLen   int64
+	Dead     map[*ssa.BasicBlock]bool // blocks unreachable under closed-world assumptions
+	DeadWhy  []string
 	prepared bool
 }
 
@@ -150,7 +152,7 @@ func (f *FA) newAtom(key, name string, lo, hi int64) int {
 	if id, ok := f.byKey[key]; ok {
 		return id
 	}
-	f.atoms = append(f.atoms, atom{name, lo, hi})
+	f.atoms = append(f.atoms, atom{name: name, lo: lo, hi: hi})
 	id := len(f.atoms) - 1
 	f.byKey[key] = id
 	return id
@@ -451,7 +453,25 @@ func (f *FA) LFOf(v ssa.Value) LF {
 	r := f.lf0(v)
 	delete(f.inprog, v)
 	f.lfMemo[v] = r
+	if id, ok := singleAtom(r); ok && f.atoms[id].def == nil {
+		if _, isConv := v.(*ssa.Convert); !isConv {
+			f.atoms[id].def = v
+		}
+	}
 	return r
+}
+
+// atomDef returns a value whose linear form is exactly atom a, if one was seen.
+func (f *FA) atomDef(a int) ssa.Value { return f.atoms[a].def }
+
+// fieldOfLenAtom: if atom a is the length of a field load, the field's "Struct.Field" key.
+func (f *FA) fieldOfLenAtom(a int) string {
+	if v := f.atoms[a].lenOf; v != nil {
+		if fk, ok := fieldKeyOfLoad(v); ok {
+			return fk
+		}
+	}
+	return ""
 }
 
 // fit returns l if the mathematical value provably lies in range(t) (no wrap-around), else a fresh atom.
@@ -837,6 +857,9 @@ func (f *FA) SliceLen(v ssa.Value) LF {
 	r := f.sliceLen0(v)
 	delete(f.inprog, v)
 	f.lenMemo[v] = r
+	if id, ok := singleAtom(r); ok && f.atoms[id].lenOf == nil {
+		f.atoms[id].lenOf = v
+	}
 	return r
 }
 
@@ -915,6 +938,34 @@ func (f *FA) sliceLen0(v ssa.Value) LF {
 		if live := f.liveEdges(x); len(live) == 1 && live[0] != ssa.Value(x) {
 			return f.SliceLen(live[0])
 		}
+		// accumulator: every edge that depends on the φ extends it by append (length never shrinks),
+		// so the length is at least the smallest initial length
+		if sliceDependsOn(x, x, map[ssa.Value]bool{}) {
+			lo := int64(INF)
+			grows := true
+			for _, e := range x.Edges {
+				if e == ssa.Value(x) {
+					continue
+				}
+				if sliceDependsOn(e, x, map[ssa.Value]bool{}) || e == ssa.Value(x) {
+					if !appendExtends(e, x, 0) {
+						grows = false
+					}
+					continue
+				}
+				if sliceDependsOnAny(e) {
+					grows = false
+					continue
+				}
+				blo, _ := f.bounds(f.SliceLen(e), nil)
+				if blo < lo {
+					lo = blo
+				}
+			}
+			if grows && lo < INF && lo >= 0 {
+				return f.atomLF("len:"+f.canon(v), "len("+f.canon(v)+")", lo, f.maxLen)
+			}
+		}
 		// non-loop φ of slices: interval join of the incoming lengths
 		if !sliceDependsOn(x, x, map[ssa.Value]bool{}) {
 			lo, hi := int64(INF), int64(-INF)
@@ -939,6 +990,41 @@ func (f *FA) sliceLen0(v ssa.Value) LF {
 		}
 	}
 	return opaque()
+}
+
+// appendExtends: v is target, or append(w, ...) / φ of such with w extending target (never a re-slice).
+func appendExtends(v ssa.Value, target *ssa.Phi, depth int) bool {
+	if v == ssa.Value(target) {
+		return true
+	}
+	if depth > 8 {
+		return false
+	}
+	switch x := v.(type) {
+	case *ssa.Call:
+		if b, ok := x.Call.Value.(*ssa.Builtin); ok && b.Name() == "append" {
+			return appendExtends(x.Call.Args[0], target, depth+1)
+		}
+	case *ssa.Phi:
+		for _, e := range x.Edges {
+			if e == ssa.Value(x) {
+				continue
+			}
+			if !appendExtends(e, target, depth+1) {
+				return false
+			}
+		}
+		return true
+	}
+	return false
+}
+
+// sliceDependsOnAny: v is itself a φ-dependent value we cannot bound (another loop φ).
+func sliceDependsOnAny(v ssa.Value) bool {
+	if p, ok := v.(*ssa.Phi); ok {
+		return sliceDependsOn(p, p, map[ssa.Value]bool{})
+	}
+	return false
 }
 
 // sliceDependsOn reports whether slice value v is derived (through slicing, append, φ) from target.
